@@ -220,6 +220,23 @@ def run_sequence(g, xpn, counters, viol):
                 counters["int_index_judged"] += 1
                 if not ok:
                     viol.append({"mech": "C16/select-int/field", "detail": f"{cls_name} {xpn}: s[{idx_model}] fields differ from row {idx_model}"})
+                # the single-row set itself must survive pickling and the dictionary round trip unchanged (shapes included)
+                import pickle as _pk
+
+                trips = [("pickle", lambda o: _pk.loads(_pk.dumps(o)))]
+                for flat in (True, False):
+                    trips.append((f"dict(flat={flat})", lambda o, flat=flat: type(o).from_dict(o.to_dict(flat=flat))))
+                for label, fn in trips:
+                    counters["single_row_roundtrips"] += 1
+                    try:
+                        r2 = fn(s2)
+                    except Exception as exc:  # noqa: BLE001
+                        counters["single_row_roundtrip_raised_recorded"] += 1
+                        continue
+                    for a_ in ("x", "log_likelihood", "log_prior", "log_q"):
+                        v0, v1 = getattr(s2, a_), getattr(r2, a_)
+                        if not same(v1, None if v0 is None else np.asarray(to_np(v0))):
+                            viol.append({"mech": f"C16/single-row-{label.split('(')[0]}-roundtrip/field-{a_}", "detail": f"{cls_name} {xpn}: s[{idx_model}] then {label}: {a_} {None if v0 is None else np.shape(to_np(v0))} -> {None if v1 is None else np.shape(to_np(v1))}"})
                 continue
             ok = compare(s2, m2, xpn, f"select-{kind.split('_')[0]}", viol)
             counters["select_judged"] += 1
